@@ -292,6 +292,12 @@ def generate(repo):
     com_raw = open(os.path.join(repo, "libjwt/jwt-common.c"), errors="replace").read()
     com_raw = re.sub(r"/\*.*?\*/", " ", com_raw, flags=re.S)
     com_raw = re.sub(r"//[^\n]*", " ", com_raw)
+
+    _fb = find_body
+
+    def find_body_pp(src, header_re, what):
+        """bodies taken from the template file: preprocessor lines inside a body are dropped (both compilations' lines are read)"""
+        return re.sub(r"^[ \t]*#[^\n]*", " ", _fb(src, header_re, what), flags=re.M)
     out = ["/- GENERATED by tie/extract.py (tie/pipeline.py over tie/cmini.py) from libjwt/jwt-verify.c and libjwt/jwt-common.c -- do not edit.",
            "   The decision skeleton of the verification pipeline: the order of the tests, which of them end the call, what every",
            "   exit returns, whether it has written a message (`w`; `wj` = on the per-call object) or copied the per-call object's",
@@ -416,7 +422,7 @@ def generate(repo):
                   rets={"1": "1", "__deleter(__cmd->c->payload, name)": "delRet"}, flags=("w", "bitCleared"))
     emit(sk, "checkerClaimDel", [("cmdNull", "Bool"), ("nameNull", "Bool"), ("delRet", "Nat")],
          "jwt-common.c `jwt_checker_claim_del`: `bitCleared` = the claim's bit was cleared; `delRet` = what `__deleter` returned")
-    body = find_body(com_raw, r"\nint\s+FUNC\s*\(\s*time_leeway\s*\)\s*\([^)]*\)", "FUNC(time_offset/time_leeway)")
+    body = find_body_pp(com_raw, r"\nint\s+FUNC\s*\(\s*time_leeway\s*\)\s*\([^)]*\)", "FUNC(time_offset/time_leeway)")
     sk = Skeleton("FUNC(time_leeway)", body,
                   atoms={"__cmd": ("cmdNull", "ptr"), "(claim == JWT_CLAIM_EXP)": ("isExp", "bool"), "(claim == JWT_CLAIM_NBF)": ("isNbf", "bool"),
                          "(secs <= __DISABLE)": ("disable", "bool")},
